@@ -357,6 +357,7 @@ def jobs(tier):
         Job('C17', 's1.wal', t_wal, dict(topo='parallel', faults=False, teardown=True), witnesses=('complete at teardown',)),
     ]
     out.append(Job('C17', 's1.wal_fs', t_wal_fs, {}, witnesses=('line written', 'mkdir failed')))
+    out += mk('C17', 'tree/handler_sends_own_event_to_wal_bus', S.handler_sends_own_event_to_wal_bus(), witnesses=('wal written',))
     out += mk('C17', 'tree/fw_late_await', _with_wal(S.fw_late_await(), ['A', 'B']), witnesses=('wal written',))
     out += mk('C17', 'tree/fw_chain3', _with_wal(S.forward_chain(3, topo='chain', second_event=True), ['A', 'B', 'C']), witnesses=('wal written',))
     out += mk('C17', 'tree/child_await', _with_wal(S.child('await', k=1), ['A']), witnesses=('wal written',))
